@@ -255,13 +255,17 @@ theorem batch_enabled {cfg : Cfg} (s : State) (k v : Nat) :
   · right; simp [Batcher.step, procStep, Processor.step, hg]
 
 /-- **departure_never_wedges (Batch)**: a value passed to `Batch` that is still the live one for
-its key when the clock reaches its due time gets its fan-out started (`C06.none_stranded` lifted
-through every fan-out on the way), and that fan-out completes (`departure_never_wedges_execute`). -/
+its key when the clock has reached its due time — and the loop's pending wake-up, `Timely`: since
+C06 dropped assumption A1 the loop's timer may be late by the clock time that passed between its
+`Now()` and `NewTimer()`, `C06.late_bound` — gets its fan-out started (`C06.none_stranded` lifted
+through every fan-out on the way), and that fan-out completes (`departure_never_wedges_execute`).
+So a delivery happens not before `call + interval − 0.5 ms` (`debounce`) and at the loop's first
+wake-up at or after `call + interval`. -/
 theorem departure_never_wedges_batch {cfg : Cfg} (hfix : cfg.fixed = true) (hcap : 0 < cfg.cap)
     {stalled : Nat → Prop} {s : State} (hr : Reach (Batcher.lts cfg) s) (hopen : s.p.stopped = false)
-    {x : It} (hx : x ∈ s.p.q) (hdue : x.time ≤ s.p.now) (hd : Departed stalled s) :
+    {x : It} (hx : x ∈ s.p.q) (hdue : x.time ≤ s.p.now) (ht : Timely s.p) (hd : Departed stalled s) :
     ∃ s', Steps (Batcher.lts cfg) (Allowed stalled) s s' ∧ Event.exec x s.p.now ∈ s'.p.log := by
-  obtain ⟨p', hp, he⟩ := Processor.progress ⟨reach_proj hr, hopen, hx, hdue⟩
+  obtain ⟨p', hp, he⟩ := Processor.progress ⟨reach_proj hr, hopen, hx, hdue, ht⟩
   have hp' : Steps (Processor.lts pcfg) (fun l => l.isInternal = true) s.p p' := by
     refine Steps.mono ?_ hp
     intro a ha
@@ -379,7 +383,7 @@ theorem demo_run1 : runFrom demoCfg Batcher.init [.subCall, .subAcquire, .subRet
 
 /-- The clock reaches 14; the loop pops the item and calls `execute`. -/
 def demo2 : State :=
-  { demo1 with p := { demo1.p with q := [], reset := false, pc := .running demoItem, now := 14, log := demoLog },
+  { demo1 with p := { demo1.p with q := [], reset := false, pc := .running demoItem, now := 14, log := demoLog, readAt := 14 },
                epc := .waiting demoItem }
 
 theorem demo_run2 : runFrom demoCfg demo1 [.proc (.peek (some demoItem)), .proc .pollReset, .proc (.advance 14),
